@@ -41,7 +41,7 @@ func launchKey(p *ProcSpec) string {
 		st = fmt.Sprint(*p.StopTimeout)
 	}
 	return strings.Join([]string{p.Token, strings.Join(p.Env, ","), p.WorkingDir, p.Restart, b, fmt.Sprint(p.MaxRestarts), probe(p.Readiness), probe(p.Liveness), strings.Join(deps, ","), fmt.Sprint(p.Disabled), p.ReadyLine,
-		fmt.Sprint(p.UseEntry), p.Exe, fmt.Sprint(p.ParentOnly), st}, "|")
+		fmt.Sprint(p.UseEntry), p.Exe, fmt.Sprint(p.ParentOnly), st, fmt.Sprint(p.ExitOnSkipped)}, "|")
 }
 
 func cloneSpec(p *ProjectSpec) *ProjectSpec {
@@ -701,7 +701,14 @@ func genC14(r *R, sc *Scenario, tier string) {
 				continue
 			case r.P(350):
 				// change something that reaches the command or decides about its launches
-				switch r.Intn(12) {
+				switch r.Intn(14) {
+				case 12, 13:
+					// nothing but a detail of the restart policy changes
+					if len(p.DependsOn) == 0 && r.P(600) {
+						p.ExitOnSkipped = !p.ExitOnSkipped // (never skipped: it waits for nothing)
+					} else {
+						p.MaxRestarts = u + 3
+					}
 				case 9:
 					// nothing but the executable changes
 					if p.UseEntry {
@@ -726,6 +733,8 @@ func genC14(r *R, sc *Scenario, tier string) {
 						}
 					}
 					switch {
+					case p.ExitOnSkipped:
+						p.Backoff = iptr(u + 5)
 					case len(p.DependsOn) > 0 && r.P(500):
 						for d, c := range p.DependsOn {
 							if c == "process_started" {
